@@ -163,7 +163,11 @@ fn is_cfg_test(attrs: &[syn::Attribute]) -> bool {
         a.path().is_ident("cfg")
             && a.meta
                 .require_list()
-                .map(|l| l.tokens.to_string().trim() == "test")
+                .map(|l| {
+                    let t = l.tokens.to_string();
+                    // test-only code and the verification hooks are not part of the program under analysis
+                    t.trim() == "test" || t.contains("verif-hooks")
+                })
                 .unwrap_or(false)
     })
 }
